@@ -73,6 +73,20 @@ def permuted(spec, rng):
     for key in ("tasks", "workers", "requirements", "constraints", "indicators"):
         if len(s.get(key, [])) > 1:
             rng.shuffle(s[key])
+
+    def shuffle_commutative(c):
+        # operand order of the commutative connectives is a declaration order too
+        if isinstance(c, dict):
+            if c.get("kind") in ("And", "Or") and len(c.get("args", [])) > 1:
+                rng.shuffle(c["args"])
+            for v in c.values():
+                if isinstance(v, (dict, list)):
+                    shuffle_commutative(v)
+        elif isinstance(c, list):
+            for v in c:
+                shuffle_commutative(v)
+
+    shuffle_commutative(s.get("constraints", []))
     return s
 
 
@@ -295,6 +309,15 @@ def base_specs(n, seed, tier):
         for c in spec["constraints"]:
             c["name"] = c["id"]
         out.append(spec)
+    # formulas whose operand order may be permuted
+    from . import c10
+    for j in range(4 if tier == "quick" else 30):
+        r = random.Random(f"{seed}-c14-fol-{j}")
+        f = c10.random_formula(r, 2, False)
+        if f.get("kind") in ("And", "Or", "Not", "Xor", "Implies", "IfThenElse"):
+            sp = c10.base_spec(False)
+            sp["constraints"] = [c10.with_ids(f, [0])]
+            out.append(sp)
     # hand-made: order-sensitive suspects
     out.append(fam.base(4, [fam.fx("x", 1, optional=True), fam.fx("y", 1, optional=True), fam.fx("z", 1)], constraints=[
         {"id": "g", "kind": "OrderedTaskGroup", "tasks": ["x", "y"], "interval": [0, 4], "mode": "lax"},
